@@ -69,9 +69,8 @@ BOUNDS = {
     "alter-var-roots + k refers + in-ns + require (enabled operations only); each history under direct linking and under "
     "use-var-indirection, every read compiled with inline-functions on and off; all spellings of all group names read after "
     "every history",
-    "thorough": "length <=4 over {a-b,a_b}; length <=5 over {plain} and over {a-b,a_b} with plain and ^:redef defs only; length <=4 over "
-    "{x?,x__Q__} and {print,print_} with the def flags reduced to plain/private from the third step on; length <=3 over "
-    "{class,v',plain} and {a-b,plain}; same configurations and reads",
+    "thorough": "length <=4 over {a-b,a_b}; length <=5 over {plain} and over {a-b,a_b} with plain defs only; length <=3 over "
+    "{x?,x__Q__}, {print,print_}, {class,v',plain} and {a-b,plain}; same alphabet, configurations and reads",
 }
 RULE = (
     "engine B: breadth-first enumeration of operation histories (no merging: every history is its own state because the "
@@ -772,10 +771,10 @@ PLAN = {
     "quick": [("dash", 3, None), ("one", 3, None), ("qmark", 2, None), ("builtin", 2, None), ("single", 2, None)],
     "thorough": [
         ("dash", 4, None),
-        ("dash", 5, (0, ("plain", "redef"))),
+        ("dash", 5, (0, ("plain",))),
         ("one", 5, None),
-        ("qmark", 4, (2, ("plain", "private"))),
-        ("builtin", 4, (2, ("plain", "private"))),
+        ("qmark", 3, None),
+        ("builtin", 3, None),
         ("cross", 3, None),
         ("single", 3, None),
     ],
